@@ -348,6 +348,7 @@ def lift(x) -> 'SStr':
         return x
     if not isinstance(x, str):
         raise TypeError(f'expected a string, got {type(x).__name__}')
+    _no_inert_numbers(x)
     if x.isascii() or not has_sym(x):
         return SStr(tuple(x))
     st = _st()
@@ -732,6 +733,41 @@ class SStr:
         return _decide(_and(ch_in(ch, 'isascii', str.isascii) for ch in self.cs))
 
 
+class numeric_formatting:
+    """while active, formatting a symbolic integer (f-string, str(), format()) yields its decimal digits
+    by sound concretisation (the path forks over every feasible value) instead of symex's inert
+    '<SInt>' text, so that a number computed by the code under test can become part of a file name.
+    Work-around kept in this module: engine/symex.py is not edited; the class attributes are restored on exit."""
+    _INERT = ('<SInt>', '<SReal>', '<SBool>', '<SStr ', '<SMatch ')
+
+    def __enter__(self):
+        self._saved = (symex.SInt.__dict__.get('__format__'), symex.SInt.__dict__.get('__str__'))
+
+        def fmt(v, spec=''):
+            return format(symex.ctx().concretize(v), spec)
+
+        def to_str(v):
+            return str(symex.ctx().concretize(v))
+        symex.SInt.__format__ = fmt
+        symex.SInt.__str__ = to_str
+        return self
+
+    def __exit__(self, *a):
+        for name, old in zip(('__format__', '__str__'), self._saved):
+            if old is None:
+                try:
+                    delattr(symex.SInt, name)
+                except AttributeError:
+                    pass
+            else:
+                setattr(symex.SInt, name, old)
+
+
+def _no_inert_numbers(x: str):
+    if '<S' in x and any(t in x for t in numeric_formatting._INERT):
+        raise HarnessError('a symbolic value was formatted into a string as inert text (repr(), or a number outside sstr.numeric_formatting)')
+
+
 # ---- constructors / conversions ---------------------------------------------------
 
 def fresh_str(c, base: str, n: int, exclude: str = '', only: str = ''):
@@ -905,11 +941,23 @@ def _pattern_text(p, flags):
         return p, flags
     st = _st()
     out = []
+
+    def context_sensitive():
+        """inside a construct where ordinary characters have a meaning too: after a backslash, inside an open
+        [...] or {...}, directly after '(?'"""
+        t = ''.join(out)
+        n_bs = len(t) - len(t.rstrip('\\'))
+        if n_bs % 2 == 1:
+            return True
+        plain = _re.sub(r'\\.', '', t, flags=_re.S)
+        if plain.rfind('[') > plain.rfind(']') or plain.rfind('{') > plain.rfind('}'):
+            return True
+        return _re.search(r'\(\?[a-zA-Z<!=P-]*$', plain) is not None
     for ch in p:
         o = ord(ch)
         if PUA0 <= o < PUA1:
             e = st.exprs[o - PUA0]
-            if ch_test(e, 'regex-meta', lambda c: c in _SPECIAL or c in '-#&~ \t\n' or c.isalnum()):
+            if context_sensitive() or ch_test(e, 'regex-meta', lambda c: c in _SPECIAL):
                 # not escaped and able to change the meaning of the pattern: make it concrete
                 sg = st.sigma
                 v = symex.ctx().concretize(z3.BV2Int(e), limit=sg.n + 1)
@@ -1421,6 +1469,50 @@ class ReShim:
 
     def finditer(self, pattern, string, flags=0):
         return self._p(pattern, flags).finditer(string)
+
+
+class FnmatchShim:
+    """stand-in for the `fnmatch` module (POSIX flavour: normcase is the identity).  The real
+    fnmatch.translate produces the regex text; a symbolic character of the glob pattern is first
+    asked whether it is a glob meta character (then the path forks over which one)."""
+
+    def __init__(self, re_shim: 'ReShim' = None):
+        self._re = re_shim or ReShim()
+
+    def __getattr__(self, name):
+        raise HarnessError(f'fnmatch.{name} is not modelled')
+
+    def translate(self, pat):
+        import fnmatch as _fn
+        if isinstance(pat, str) and not has_sym(pat):
+            return _fn.translate(pat)
+        st = _st()
+        out = []
+        for ch in _chars(pat):
+            ch = _norm(ch)
+            if isinstance(ch, str):
+                out.append(ch)
+            elif ch_test(ch, 'glob-meta', lambda c: c in '*?[]!-'):
+                out.append(st.sigma.chars[symex.ctx().concretize(z3.BV2Int(ch), limit=st.sigma.n + 1)])
+            else:
+                out.append(chr(PUA1 + _placeholder(ch)))
+        return _fn.translate(''.join(out))
+
+    def fnmatchcase(self, name, pat):
+        if isinstance(name, str) and isinstance(pat, str) and not has_sym(name) and not has_sym(pat):
+            import fnmatch as _fn
+            return _fn.fnmatchcase(name, pat)
+        return self._re.compile(self.translate(pat)).match(name) is not None
+
+    fnmatch = fnmatchcase
+
+    def filter(self, names, pat):
+        names = list(names)
+        if isinstance(pat, str) and not has_sym(pat) and all(isinstance(n, str) and not has_sym(n) for n in names):
+            import fnmatch as _fn
+            return _fn.filter(names, pat)
+        rx = self._re.compile(self.translate(pat))
+        return [n for n in names if rx.match(n) is not None]
 
 
 # ------------------------------------------------------------------------------
